@@ -1,3 +1,5 @@
+from dataclasses import dataclass, field
+
 from xdsl.context import Context
 from xdsl.dialects import arith, builtin, scf
 from xdsl.ir import Block, BlockArgument, IRUses, Operation
@@ -84,6 +86,7 @@ class BlockLevelSetupAwaitOverlapPattern(RewritePattern):
         )
 
 
+@dataclass
 class LoopLevelSetupAwaitOverlapPattern(RewritePattern):
     """
     Converts an `scf.for` loop to have setup/launch overlaps
@@ -125,6 +128,14 @@ class LoopLevelSetupAwaitOverlapPattern(RewritePattern):
     is happening during an await anyway, we won't focus much in it for now.
     """
 
+    known_after_loop: dict[scf.ForOp, dict[int, frozenset[str]]] = field(
+        default_factory=dict[scf.ForOp, dict[int, frozenset[str]]]
+    )
+    """
+    For every loop and loop-carried state, the fields that are known to be set after the loop,
+    inferred before the pass started to move setups around.
+    """
+
     @op_type_rewrite_pattern
     def match_and_rewrite(self, op: accfg.SetupOp, rewriter: PatternRewriter, /):
         # only apply if setup has an input state
@@ -162,7 +173,11 @@ class LoopLevelSetupAwaitOverlapPattern(RewritePattern):
         # the copy of the setup at the end of the loop body also runs after the last iteration (and the copy before
         # the loop runs even if the loop body never does). It must therefore not overwrite a field that is known to
         # be set after the loop, as later (deduplicated) setups may rely on that value.
-        state_after_loop = infer_state_of(for_op.results[iter_arg_idx])
+        # This has to be judged on the state inferred before this pass moved anything, as that is the state
+        # accfg-dedup has used: moving setups of other loops weakens what can be inferred afterwards.
+        state_after_loop = self.known_after_loop.get(for_op, {}).get(iter_arg_idx)
+        if state_after_loop is None:
+            state_after_loop = frozenset(infer_state_of(for_op.results[iter_arg_idx]))
         if any(name in state_after_loop for name, _ in op.iter_params()):
             return
 
@@ -210,11 +225,18 @@ class AccfgConfigOverlapPass(ModulePass):
     name = "accfg-config-overlap"
 
     def apply(self, ctx: Context, op: builtin.ModuleOp) -> None:
+        # infer what is known after every loop before anything is moved
+        known_after_loop: dict[scf.ForOp, dict[int, frozenset[str]]] = {}
+        for for_op in op.walk():
+            if isinstance(for_op, scf.ForOp):
+                for idx, result in enumerate(for_op.results):
+                    if isinstance(result.type, accfg.StateType):
+                        known_after_loop.setdefault(for_op, {})[idx] = frozenset(infer_state_of(result))
         PatternRewriteWalker(
             GreedyRewritePatternApplier(
                 [
                     BlockLevelSetupAwaitOverlapPattern(),
-                    LoopLevelSetupAwaitOverlapPattern(),
+                    LoopLevelSetupAwaitOverlapPattern(known_after_loop),
                 ]
             )
         ).rewrite_module(op)
